@@ -936,13 +936,15 @@ def run_session(spec, tools, res, stats, sess_rng):
                 filt = "/".join(["-"] + [",".join(str(v) for v in rg) for rg in ranges])
                 model_in.append("T|%s|%s" % (raw, filt))
                 model_ctx.append(("T", si, f, ranges, [data] + range_answers, report, not probs))
-                model_in.append("O|" + " ".join(str(v) for v in data))
-                model_ctx.append(("O", si, f, ranges, not probs, report))
+                if len(data) <= 5 * 2500:
+                    # the extracted all-pairs predicate well_formed_stream is quadratic: evaluated on answers <= 2500 tokens
+                    model_in.append("O|" + " ".join(str(v) for v in data))
+                    model_ctx.append(("O", si, f, ranges, not probs, report))
                 if len(hf["raw"]) <= 60 and len(stats["coq_sample"]) < 24:
                     stats["coq_sample"].append((hf["raw"], ranges[:3], [data] + range_answers[:3]))
-                if len(stats["samples"]) < 4 and toks and ranges and len(text) < 3000:
+                if len(stats["samples"]) < 4 and toks and ranges and not probs and len(text) < 3000:
                     stats["samples"].append({"session": name, "file": f, "tokens": len(toks),
-                                             "first_tokens": [[t[0], t[1], t[2], slice16(lines[t[0]], t[1], t[2])] for t in toks[:5]],
+                                             "first_tokens": [[t[0], t[1], t[2], slice16(lines[t[0]], t[1], t[2]) if t[0] < len(lines) else None] for t in toks[:5]],
                                              "range": ranges[0], "range_answer_tokens": len(decode(range_answers[0]) or []) if range_answers and range_answers[0] is not None else None})
                 # -- document symbols
                 if spec.get("docsym", True):
@@ -1123,7 +1125,7 @@ def corpus_sessions():
     return out
 
 
-def session_libs(rng, n_edit, n_lib_files=None, nranges=10):
+def session_libs(rng, n_edit, n_lib_files=None, nranges=10, name="libs", n_big=3):
     """Generated project(s) next to the bundled libraries; bundled files are queried as they are: all of them, or
     (quick tier) a seed-dependent sample that always contains three of the six largest files."""
     quick = n_lib_files is not None
@@ -1139,8 +1141,8 @@ def session_libs(rng, n_edit, n_lib_files=None, nranges=10):
     libfiles = all_library_files()
     if quick:
         by_size = sorted(libfiles, key=lambda p: -os.path.getsize(p))
-        big = rng.sample(by_size[:6], 3)
-        libfiles = sorted(big + rng.sample(by_size[6:], max(0, n_lib_files - 3)))
+        big = rng.sample(by_size[:6], n_big)
+        libfiles = sorted(big + rng.sample(by_size[6:], max(0, n_lib_files - n_big)))
     steps = [{"edit": None, "query": libfiles + sorted(files)}]
     steps.append({"edit": {"file": "stray.vhd", "spec": {"text": TEMPLATES["gen"].replace("@", "_s").split("context")[0]}},
                   "query": ["stray.vhd", "nowhere.vhd"]})
@@ -1151,7 +1153,7 @@ def session_libs(rng, n_edit, n_lib_files=None, nranges=10):
         ops = random_ops(rng, base)
         mate = rng.choice(names)
         steps.append({"edit": {"file": f, "spec": {"text": apply_ops(base, ops)}}, "query": [f, mate]})
-    return {"name": "libs", "toml": toml, "files": files, "steps": steps, "nranges": nranges}
+    return {"name": name, "toml": toml, "files": files, "steps": steps, "nranges": nranges}
 
 
 def session_mutants(rng, name, n_libs, n_edit, nranges=10, hier=True):
@@ -1397,10 +1399,12 @@ def main(tier, replay=None):
             go(session_generated(rng, "generated", 6, 150, nranges=9), "generated")
             go(session_reload(rng, "reload", 40), "reload")
         else:
-            go(session_libs(rng, 3, n_lib_files=10, nranges=1), "libs")
+            go(session_libs(rng, 2, n_lib_files=2, nranges=2, name="libs_a", n_big=2), "libs_a")
+            go(session_libs(rng, 1, n_lib_files=5, nranges=2, name="libs_b", n_big=1), "libs_b")
+            go(session_libs(rng, 1, n_lib_files=5, nranges=2, name="libs_c", n_big=0), "libs_c")
             go(session_reload(rng, "reload", 4), "reload")
             for k in range(2):
-                go(session_mutants(rng, "mutants%d" % k, 4, 3, nranges=1), "mutants%d" % k)
+                go(session_mutants(rng, "mutants%d" % k, 4, 4, nranges=2), "mutants%d" % k)
             go(session_generated(rng, "generated", 1, 6, nranges=1), "generated")
         go(session_reload_disk(rng, "reload_disk"), "reload_disk")
         go(session_generated(rng, "generated_flat", 1, 5 if thorough else 2, hier=False, nranges=1), "generated_flat")
@@ -1436,10 +1440,10 @@ def main(tier, replay=None):
         "endings, shift) and further mutations sent by didChange; (reload) vhdl_ls.toml rewritten (file moved to another library, "
         "mapped twice, unmapped, restored) + didChangeWatchedFiles, files created/deleted + didCreateFiles/didDeleteFiles, every file "
         "queried before and after, last answers compared with a fresh server; (reload_disk) file contents shortened on disk + mapping "
-        "change + reload, oracle against the text the Project holds (harness dump). Quick tier: the corpus, a seed-dependent sample of 10 "
+        "change + reload, oracle against the text the Project holds (harness dump). Quick tier: the corpus, a seed-dependent sample of 12 "
         "bundled files (three of the six largest always), one generated project, 8 mutated groups, fewer edits/reloads; thorough: "
         "everything. Sessions run in 8 worker processes. Per file: full request; 3 line ranges derived from the answer (line of the "
-        "first token; middle token's line to last token's line; inverted) + 1 (corpus 5, thorough 9) random ranges (single line, empty, "
+        "first token; middle token's line to last token's line; inverted) + 2 (corpus 5, thorough 9) random ranges (single line, empty, "
         "inverted, beyond EOF, up to 2^32-1, whole file, random spans); documentSymbol. /repo/example_project contains no VHDL files "
         "(empty submodules) and is therefore not an input. non-trivial = full answer with >= 1 token; range answer that is a proper "
         "non-empty part of the full answer or an inverted/beyond-EOF range on a non-empty file; symbol tree with > 1 symbol; distinct "
